@@ -60,6 +60,7 @@ type Contract struct {
 	Extern     bool
 	Lemma      bool
 	NoFrame    bool
+	Keep       map[string]bool // wiring units: safety obligation kinds that are nevertheless claimed
 	Wiring     bool // abstract mode, no memory-safety obligations: only call-site/ensures/invariant obligations
 	CallSites  []CallSiteSpec
 	NoWrap     bool
@@ -377,6 +378,13 @@ func (c *Ctx) parseContracts(p *packages.Package) error {
 						cur.Arith = true
 					case "abstract":
 						cur.Abstract = true
+					case "keep":
+						if cur.Keep == nil {
+							cur.Keep = map[string]bool{}
+						}
+						for _, k := range strings.Split(rest, ",") {
+							cur.Keep[strings.TrimSpace(k)] = true
+						}
 					case "wiring":
 						cur.Abstract = true
 						cur.Wiring = true
